@@ -12,6 +12,10 @@ theorems of `Props/C13.lean` are about those definitions at ℝ) AND corresponde
       30-digit integral for growing N;
   (4) BernoulliLikelihood marginal vs Phi(m / sqrt(1+v)) (mpmath) and vs the 30-digit integral of Phi;
   (5) conditional distribution parameters of Laplace / Student-t / Beta / Softmax vs the documented ones;
+  (3b) construction histories: sequences of constructions of the four likelihoods / bare rules under different
+      `settings.num_gauss_hermite_locs` values (several orders, nested blocks, same class twice, objects used later under
+      yet another setting): each object is exact up to degree 2N-1 of ITS construction-time N, misses exactly v^N·N! at
+      degree 2N, and its expected_log_prob / log_marginal equal the N-point rule on the documented density;
   (6) log_normal_cdf value and gradient vs mpmath on a dense sweep of [-40, 10] incl. the branch boundaries,
       and the generated branch formulas run at Lean `Float`.
 """
@@ -383,6 +387,184 @@ def check_likelihood_integrals(ctx):
         torch.set_default_dtype(torch.float32)
 
 
+
+# ------------------------------------------------------------------ (3b) construction histories
+
+HIST_KINDS = ["GHQ", "Bernoulli", "Laplace", "StudentT", "Beta"]
+
+
+def _hist_build(kind):
+    import gpytorch
+    from gpytorch.utils.quadrature import GaussHermiteQuadrature1D
+    L = gpytorch.likelihoods
+    with warnings.catch_warnings():
+        warnings.simplefilter("ignore")
+        return {"GHQ": GaussHermiteQuadrature1D, "Bernoulli": L.BernoulliLikelihood, "Laplace": L.LaplaceLikelihood,
+                "StudentT": L.StudentTLikelihood, "Beta": L.BetaLikelihood}[kind]()
+
+
+def _hist_exec(prog, stack, out):
+    """prog: list of ('build', kind) | ('with', N, [prog]).  Appends (kind, expected N, object, where)."""
+    import gpytorch
+    for st in prog:
+        if st[0] == "build":
+            n_exp = stack[-1] if stack else gpytorch.settings.num_gauss_hermite_locs.value()
+            out.append((st[1], n_exp, _hist_build(st[1]), "/".join(str(x) for x in stack) or "default"))
+        else:
+            with gpytorch.settings.num_gauss_hermite_locs(st[1]):
+                _hist_exec(st[2], stack + [st[1]], out)
+
+
+def _hist_show(prog):
+    return "; ".join(f"build {st[1]}" if st[0] == "build" else f"with num_gauss_hermite_locs({st[1]}): [{_hist_show(st[2])}]"
+                     for st in prog)
+
+
+def history_programs(rng, quick):
+    """Sequences of constructions under different node-count settings: every order of 3 / default / 32 / 5 style
+    sequences (sampled), nested blocks, and builds after a block was left."""
+    progs = []
+    base = [3, None, 32, 5]
+    orders = [list(base), list(reversed(base))]
+    for _ in range(2 if quick else 10):
+        o = list(base) + [rng.choice([2, 4, 7, 11, 16, 25])]
+        rng.shuffle(o)
+        orders.append(o)
+    for o in orders:
+        kinds = [rng.choice(HIST_KINDS) for _ in o]
+        # every likelihood class and the bare rule appear early in some sequence
+        prog = []
+        for n, k in zip(o, kinds):
+            prog.append(("build", k) if n is None else ("with", n, [("build", k)]))
+        progs.append(prog)
+    # same class twice in a row under different settings (the first-built object must not leak into the second)
+    for k in HIST_KINDS:
+        a, b = rng.sample([3, 5, 9, 32], 2)
+        progs.append([("with", a, [("build", k)]), ("with", b, [("build", k)]), ("build", k)])
+    # nested blocks
+    for _ in range(2 if quick else 8):
+        a, b, c = rng.sample([3, 4, 6, 12, 32], 3)
+        k = [rng.choice(HIST_KINDS) for _ in range(5)]
+        progs.append([("with", a, [("build", k[0]), ("with", b, [("build", k[1]), ("with", c, [("build", k[2])]), ("build", k[3])]),
+                                   ("build", k[4])]), ("build", rng.choice(HIST_KINDS))])
+    return progs
+
+
+def check_construction_histories(ctx, want_driver=True, only=None):
+    """Each object must behave as the N-point rule of ITS construction-time setting: exact up to degree 2N-1, the
+    known deficiency v^N·N! at degree 2N, expected_log_prob / log_marginal equal to the N-point rule on the documented
+    density — whatever was constructed before it and whatever setting is active when it is used."""
+    import mpmath as mp
+    import numpy as np
+    import torch
+    import gpytorch
+    mp.mp.dps = 30
+    rng = ctx.rng("histories")
+    torch.set_default_dtype(torch.float64)
+    try:
+        progs = history_programs(rng, ctx.quick)
+        if only is not None:
+            progs = [p for p in progs if _hist_show(p) == only] or progs
+        jobs, req = [], []
+        for prog in progs:
+            objs = []
+            _hist_exec(prog, [], objs)
+            text = _hist_show(prog)
+            # use the objects in a different order than they were built, and under yet another active setting
+            order = list(range(len(objs)))
+            rng.shuffle(order)
+            for idx in order:
+                kind, n_exp, obj, where = objs[idx]
+                q = obj if kind == "GHQ" else obj.quadrature
+                m, v = rng.uniform(-1.5, 1.5), rng.uniform(0.3, 1.6)
+                dist = torch.distributions.Normal(torch.tensor([m]), torch.tensor([v]).sqrt(), validate_args=False)
+                v_eff = dist.variance.item()
+                use_n = rng.choice([None, 7, 13])
+                degs = sorted({0, 1, 2 * n_exp - 2, 2 * n_exp - 1, 2 * n_exp, rng.randrange(2 * n_exp)})
+                cm = gpytorch.settings.num_gauss_hermite_locs(use_n) if use_n else None
+                if cm:
+                    cm.__enter__()
+                try:
+                    with torch.no_grad():
+                        got = {k: q(lambda x, k=k: x ** k, dist).item() for k in degs}
+                        extra = None
+                        if kind != "GHQ":
+                            par = {"noise": 10 ** rng.uniform(-0.5, 0.3), "df": rng.uniform(3, 9), "scale": 10 ** rng.uniform(0, 1)}
+                            y = {"Bernoulli": float(rng.choice([0, 1])), "Laplace": m + rng.gauss(0, 1), "StudentT": m + rng.gauss(0, 1),
+                                 "Beta": rng.uniform(0.1, 0.9)}[kind]
+                            with warnings.catch_warnings():
+                                warnings.simplefilter("ignore")
+                                if kind in ("Laplace", "StudentT"):
+                                    obj.noise = par["noise"]
+                                if kind == "StudentT":
+                                    obj.deg_free = par["df"]
+                                if kind == "Beta":
+                                    obj.scale = par["scale"]
+                                mvn = gpytorch.distributions.MultivariateNormal(torch.tensor([m]), torch.tensor([[v_eff]]))
+                                elp = obj.expected_log_prob(torch.tensor([y]), mvn).item()
+                                lmg = obj.log_marginal(torch.tensor([y]), mvn).item()
+                            extra = (par, y, elp, lmg)
+                finally:
+                    if cm:
+                        cm.__exit__(None, None, None)
+                jobs.append({"prog": text, "idx": idx, "kind": kind, "N": n_exp, "where": where, "m": m, "v": v_eff, "got": got,
+                             "extra": extra, "stored": int(q.locations.numel()), "num_locs": q.num_locs, "used_under": use_n})
+                req.append(f"M {C.rat_str(m)} {C.rat_str(v_eff)} {2 * n_exp}")
+        replies = C.run_driver("C13", req) if want_driver else _python_exact(req)
+        code_fns = (lambda mm, s_: mm * s_ + 1, lambda mm, s_: (1 - mm) * s_ + 1)
+        for job, rep in zip(jobs, replies):
+            N, m, v, kind = job["N"], job["m"], job["v"], job["kind"]
+            M = [C.parse_rat(t) for t in rep.split()]
+            t_np, w_np = np.polynomial.hermite.hermgauss(N)
+            x = math.sqrt(2 * v) * t_np + m
+            wt = w_np / math.sqrt(math.pi)
+            rp = {"kind": "history", "program": job["prog"], "object": job["idx"], "class": kind, "N_at_construction": N,
+                  "m": C.rat_str(m), "v": C.rat_str(v)}
+            desc = (f"object #{job['idx']} ({kind}, built under num_gauss_hermite_locs = {job['where']}, used under "
+                    f"{job['used_under'] or 'default'}) of `{job['prog']}`")
+            ctx.case(f"H:{kind}:N{N}:{job['prog']}:{job['idx']}", sample={"program": job["prog"], "object": job["idx"], "class": kind, "N": N})
+            if job["stored"] != N or job["num_locs"] != N:
+                ctx.fail(f"history:node-count:{kind}", f"{desc} carries {job['stored']} nodes (num_locs={job['num_locs']}), "
+                         f"its construction-time setting was {N}", rp)
+            for k, g in job["got"].items():
+                A = float(np.sum(wt * np.abs(x) ** k))
+                tol = 256 * (N + k) * EPS * A + 1e-300
+                if k < 2 * N:
+                    want = float(M[k])
+                    if not abs(g - want) <= tol:
+                        ctx.fail(f"history:exactness:{kind}", f"{desc}: x^{k} (degree <= 2N-1 = {2 * N - 1}) against N({m!r},{v!r}) "
+                                 f"gives {g!r}, exact {want!r}", dict(rp, k=k))
+                else:
+                    # the N-point rule misses exactly v^N·N! at degree 2N
+                    defic = float(C.frac(v) ** N * math.factorial(N))
+                    want = float(M[k] - C.frac(v) ** N * math.factorial(N))
+                    if not abs(g - want) <= tol or not abs(g - float(M[k])) > min(tol, 0.5 * defic):
+                        ctx.fail(f"history:degree-2N:{kind}", f"{desc}: x^{k} (degree 2N) gives {g!r}; the {N}-point rule gives "
+                                 f"{want!r} (exact moment {float(M[k])!r}, known deficiency v^N·N! = {defic!r})", dict(rp, k=k))
+            if job["extra"] is not None:
+                par, y, elp, lmg = job["extra"]
+                name = kind
+                gfun = lambda f: _mp_logp(name, par, mp.mpf(y), f, code_fns)
+                xs = [mp.sqrt(2 * mp.mpf(v)) * mp.mpf(float(t)) + m for t in t_np]
+                ws = [mp.mpf(float(w)) / mp.sqrt(mp.pi) for w in w_np]
+                gx = [gfun(xx) for xx in xs]
+                Q_elp = sum(w * a for w, a in zip(ws, gx))
+                scale_e = float(sum(w * abs(a) for w, a in zip(ws, gx)))
+                tol_e = 1e-10 * (1 + scale_e) + (2e-3 if kind == "Bernoulli" else 0.0)
+                if not abs(elp - float(Q_elp)) <= tol_e:
+                    ctx.fail(f"history:elp:{kind}", f"{desc}: expected_log_prob = {elp!r}, the {N}-point rule on the documented log "
+                             f"density gives {float(Q_elp)!r}", dict(rp, y=y, par=par))
+                if kind != "Bernoulli":
+                    Q_lm = mp.log(sum(w * mp.exp(a) for w, a in zip(ws, gx)))
+                    if not abs(lmg - float(Q_lm)) <= 1e-10 * (1 + abs(float(Q_lm))):
+                        ctx.fail(f"history:log_marginal:{kind}", f"{desc}: log_marginal = {lmg!r}, the {N}-point rule on the documented "
+                                 f"density gives {float(Q_lm)!r}", dict(rp, y=y, par=par))
+        ctx.count("history_programs", len(progs))
+        ctx.count("history_objects", len(jobs))
+    finally:
+        torch.set_default_dtype(torch.float32)
+
+
 # ------------------------------------------------------------------ (4) Bernoulli marginal
 
 def check_bernoulli_marginal(ctx, lines, recs):
@@ -638,6 +820,9 @@ def compare_lean(ctx, recs, replies):
 def correspondence(ctx, want_driver=True):
     import torch
     torch.set_num_threads(2)
+    # construction histories run before anything else builds a likelihood in this process, and again at the end
+    # (then every class has been constructed before under other settings)
+    check_construction_histories(ctx, want_driver=want_driver)
     recs = poly_cases(ctx)
     check_poly(ctx, recs, want_driver=want_driver)
     check_settings(ctx)
@@ -648,6 +833,7 @@ def correspondence(ctx, want_driver=True):
     check_lncdf(ctx, lines, lrecs)
     if want_driver and lines:
         compare_lean(ctx, lrecs, C.run_driver("C13", lines))
+    check_construction_histories(ctx, want_driver=want_driver)
     _state["ran"] = True
 
 
@@ -663,6 +849,10 @@ def replay(ctx, payload):
     import torch
     case = payload["case"]
     k = case.get("kind")
+    if k == "history":
+        sub = _Ctx2()
+        check_construction_histories(sub, want_driver=False, only=case["program"])
+        return not any(f["key"] == payload["key"] for f in sub.failures)
     if k == "lncdf" or k == "lncdf-grad":
         import mpmath as mp
         from gpytorch.functions import log_normal_cdf
